@@ -2,6 +2,7 @@ INIT TInit
 NEXT TNext
 CONSTANTS
   Stacks <- Empty
+  Indeps <- Empty
   Targets <- Empty
   MaxHooks = 0
   InitRegs <- Empty
